@@ -26,7 +26,7 @@ use std::time::{Duration, Instant};
 
 pub const META: Meta = Meta {
     level: "model_checking",
-    rule: "BFS over all histories (depth 8 quick / 11 thorough) of: open inbound stream (<=2), complete / abort its negotiation, handler requests outbound stream (<=2), muxer grants it, complete / abort its negotiation, drop a negotiated stream, mark it ignore_for_keep_alive, close its write half while still holding it, flip the handler's keep-alive, advance the virtual clock by 2 s / 4 s / 40 s; idle_timeout 4 s and, separately, 0 s; the probe handler plain (full depth) and wrapped in libp2p-swarm's own combinators (depth - 2): map_out_event, select (keep-alive asked by the first / by the second handler), Either::Left / Right, ToggleConnectionHandler. States deduplicated on the abstract model (per-stream status, counts, keep-alive, idle-for) + the implementation's observable projection (handler log, held streams, live timer deadlines relative to now, muxer queues). Non-trivial = states with at least one stream / request / negotiation ever created.",
+    rule: "BFS over all histories (depth 8 quick / 11 thorough) of: open inbound stream (<=2), complete / abort its negotiation, handler requests outbound stream (<=2), muxer grants it, complete / abort its negotiation, drop a negotiated stream, mark it ignore_for_keep_alive, close its write half while still holding it, flip the handler's keep-alive, advance the virtual clock by 2 s / 4 s / 40 s; idle_timeout 4 s and, separately, 0 s; the probe handler plain and wrapped in libp2p-swarm's own combinators: map_out_event, select (keep-alive asked by the first / by the second handler), Either::Left / Right, ToggleConnectionHandler. States deduplicated on the abstract model (per-stream status, counts, keep-alive, idle-for) + the implementation's observable projection (handler log, held streams, live timer deadlines relative to now, muxer queues). Non-trivial = states with at least one stream / request / negotiation ever created.",
     explanation: "Each step runs the production Connection::poll to quiescence and compares its result with the model (safety on every step, liveness after the 40 s advance); un-deduplicated DFS companion at smaller depth.",
     assumptions: &["every action is followed by a poll of the connection task", "stream-upgrade timeouts are set beyond the horizon (only the idle timer is explored)", "multistream-select negotiation is completed by injecting the remote's messages in one piece"],
 };
@@ -347,8 +347,6 @@ pub fn run(ctx: &Ctx) -> Outcome {
     let depth = ctx.tier.pick(8, 11);
     let ddepth = ctx.tier.pick(5, 6);
     for (wrap, t) in WRAPS.iter().flat_map(|w| [(*w, 4u64), (*w, 0)]) {
-        // the plain handler is explored to the full depth, the wrapped ones two levels less
-        let (depth, ddepth) = if wrap == Wrap::Plain { (depth, ddepth) } else { (depth - 2, ddepth - 1) };
         let cfg: Value = json!({"idle_timeout_s": t, "wrap": wrap});
         let (st, v) = bfs::bfs_replay(|| Sys::new(t, wrap), depth, 3_000_000);
         out.count(&format!("states_timeout_{t}s"), st.states);
